@@ -22,6 +22,8 @@ import LianVerif.Drv.Workspace
 import LianVerif.Drv.EntryPoints
 import LianVerif.Drv.GirExec
 import LianVerif.Drv.LowerPy
+import LianVerif.Drv.Frames
+import LianVerif.Drv.Sched
 
 open Lean LianVerif.Drv
 
@@ -52,6 +54,8 @@ def dispatch (j : Json) : Except String Json := do
   | "lowerpy" => LianVerif.Drv.LowerPy.handleLower j
   | "evalpy" => LianVerif.Drv.LowerPy.handleEval j
   | "modelexec" => LianVerif.Drv.LowerPy.handleModelExec j
+  | "frames" => LianVerif.Drv.Frames.handle j
+  | "sched" => LianVerif.Drv.Sched.handle j
   | _ => throw s!"unknown model {m}"
 
 partial def loop (hin hout : IO.FS.Stream) : IO Unit := do
